@@ -272,6 +272,13 @@ def worker(case):
             p = None
             refinv = str(e)
         script = "fopen 1 f.zck r input\ncreate 1\ninit_read 1 1\nis_error 1\nmeta 1\n"
+        # lookups by number (zck_get_chunk) after the dump: last, first, descending, a shuffled order, repeats, one past the end
+        look = []
+        if p is not None and 1 <= len(p.chunks) <= 400:
+            n_ = len(p.chunks)
+            lr = core.rng(len(data), "C13", "lookups")
+            look = [n_ - 1, 0, n_ // 2, 0, n_ - 1] + list(range(min(n_, 12) - 1, -1, -1)) + [lr.randrange(n_) for _ in range(10)] + [n_, n_ - 1, n_ + 5, 0]
+            script += "chunkat 1 %s\n" % " ".join(str(x) for x in look)
         fdata_ = data
         if case.get("preceded"):
             # another, different, well-formed image precedes this one in the file; the descriptor is handed over positioned at ours
@@ -302,6 +309,23 @@ def worker(case):
                 viol = ("c13:no-meta", "meta dump missing")
             else:
                 bad = compare(meta, chunks, end, p)
+                if not bad and look:
+                    got_ = rd.ev(op="chunkat")
+                    stats["lookups_by_number"] = len(got_)
+                    if len(got_) != len(look):
+                        bad = [("lookup.missing-events", len(got_), len(look))]
+                    for g_, k_ in zip(got_, look):
+                        if k_ >= len(p.chunks):
+                            if not g_.get("nochunk"):
+                                bad.append(("lookup.beyond-end-returns-chunk", g_.get("number"), None))
+                            continue
+                        rc_ = p.chunks[k_]
+                        if g_.get("nochunk"):
+                            bad.append(("lookup.no-chunk", k_, rc_["number"]))
+                        elif (g_["number"], g_["start"], g_["comp_size"], g_["size"], g_["digest"]) != (k_, p.header_len + rc_["start"], rc_["comp_len"], rc_["len"], rc_["digest"].hex()):
+                            bad.append(("lookup.wrong-chunk", [g_["number"], g_["start"], g_["comp_size"], g_["size"]], [k_, p.header_len + rc_["start"], rc_["comp_len"], rc_["len"]]))
+                        if bad:
+                            break
                 if bad:
                     f = bad[0][0]
                     viol = ("c13:mismatch:%s" % f, "library vs reference: %s" % bad[:4])
